@@ -157,12 +157,11 @@ pub open spec fn log_after(evs: Seq<OutputEvent>, n: int) -> Seq<Written> decrea
 impl OutputList {
     #[verifier::external_body]
     pub fn blank_line_remover(s: &str) -> (r: String) ensures r@ == blr(s@) { unimplemented!() }
+//@rewrite continue
 //@item src/events.rs :: impl OutputList :: fn write_to
 //@ replace[R-writer] <<<writer: &mut dyn Write>>> => <<<writer: &mut Sink>>>
 //@ replace[R-writer] <<<        let mut writer = Writer::new(writer);\n>>> => <<<>>>
 //@ replace-all[R-maperr] <<<.map_err(SvgdxError::from_err)?>>> => <<<?>>>
-//@ replace[R-continue] <<<                continue;\n            } else if !text_buf.is_empty() {>>> => <<<            } else { if !text_buf.is_empty() {>>>
-//@ replace[R-continue] <<<            writer.write_event(event)?;\n        }>>> => <<<            writer.write_event(event)?;\n            }\n        }>>>
 //@ replace[R-string] <<<let mut text_buf = String::new();>>> => <<<let mut text_buf = string_new();>>>
 //@ replace[R-string] <<<text_buf.push_str(content);>>> => <<<string_push_str(&mut text_buf, content);>>>
 //@ replace[R-string] <<<text_buf.clear();>>> => <<<string_clear(&mut text_buf);>>>
